@@ -340,24 +340,37 @@ impl Rig {
                     obs.push(format!("{h}:_"));
                 }
                 Tok::Mark(h) => out.push(format!("mark:{h}")),
-                Tok::Started(h, w, sh) => out.push(format!("started:{h}:{w}:{}", show_shares(sh))),
                 Tok::ShareRes(h, p, t) => out.push(format!("share:{h}:{}.{}:{}", p.0, p.1, *t as u8)),
                 Tok::Result(h, t) => out.push(format!("result:{h}:{}", *t as u8)),
                 Tok::Fatal => out.push("fatal".into()),
                 Tok::BadReq(s) => out.push(format!("badreq:{}", s.replace(' ', "_").chars().take(40).collect::<String>())),
-                Tok::Req(..) => {
-                    // a run of requests: grouped by height in order of first appearance, shares sorted
+                Tok::Started(..) | Tok::Req(..) => {
+                    // A run of SamplingStarted events and requests with no store call (or other event) in between =
+                    // the first polls of a batch of freshly scheduled blocks.  Events and requests travel on different
+                    // channels and are drained together only every few scheduler turns, and with many blocks starting at
+                    // once the worker needs several turns for one batch (FuturesUnordered hands control back after two
+                    // self-waking children, the current-thread scheduler runs 61 task polls between two drains, and the
+                    // coop budget of 128 defers the sends of the block that exhausts it).  How the events and the requests
+                    // of ONE batch interleave is therefore not observable: canonical form = the started events in their
+                    // order, then the requests grouped by height in the order of the started events (groups of heights
+                    // without a started event in the run keep their order of first appearance, after the others).
+                    let mut starts: Vec<(u64, String)> = vec![];
                     let mut groups: Vec<(u64, Vec<Share>)> = vec![];
                     while i < toks.len() {
-                        if let Tok::Req(h, p) = &toks[i] {
-                            match groups.iter_mut().find(|g| g.0 == *h) {
+                        match &toks[i] {
+                            Tok::Started(h, w, sh) => starts.push((*h, format!("started:{h}:{w}:{}", show_shares(sh)))),
+                            Tok::Req(h, p) => match groups.iter_mut().find(|g| g.0 == *h) {
                                 Some(g) => g.1.push(*p),
                                 None => groups.push((*h, vec![*p])),
-                            }
-                            i += 1;
-                        } else {
-                            break;
+                            },
+                            _ => break,
                         }
+                        i += 1;
+                    }
+                    let pos = |h: u64| starts.iter().position(|s| s.0 == h).unwrap_or(usize::MAX);
+                    groups.sort_by_key(|g| pos(g.0)); // stable
+                    for (_, s) in &starts {
+                        out.push(s.clone());
                     }
                     for (h, sh) in groups {
                         out.push(format!("req:{h}:{}", show_shares(&sh)));
@@ -630,6 +643,8 @@ pub struct GenCfg {
     /// favour many small blocks and pruner reports (C34) or wide squares and timeouts (C33)
     pub c34_bias: bool,
     pub ridx_widths: Vec<u64>,
+    /// thorough tier: more and larger size-threshold episodes (S10)
+    pub thorough: bool,
 }
 
 fn pick_width(rng: &mut Rng, c34_bias: bool) -> u64 {
@@ -801,4 +816,186 @@ pub fn gen_all(rng: &mut Rng, cfg: &GenCfg, out: &mut Emitter) {
         let _ = ep;
     }
     out.op("reset limit=1 extra=0 old=0 ws=2", "reset", false);
+    gen_big(rng, cfg, out);
+    out.op("reset limit=1 extra=0 old=0 ws=2", "reset", false);
+}
+
+// ---------------------------------------------------------------------------------------------
+// S10 size-threshold stress: appended episodes (each starts with its own `reset`)
+// ---------------------------------------------------------------------------------------------
+
+/// answers to outstanding requests: mostly the lowest outstanding height (so that blocks finish and the
+/// next ones start), sometimes any height; `timeout_1_in` = 0: never a timeout
+fn emit_answers(rng: &mut Rng, out: &mut Emitter, count: usize, timeout_1_in: u64, tag: &str) {
+    for _ in 0..count {
+        let b = if rng.chance(1, 2) { 0 } else { rng.below(200) };
+        let to = if timeout_1_in > 0 && rng.chance(1, timeout_1_in) { 1 } else { 0 };
+        out.op(format!("ans b={b} k={} to={to}", rng.below(16)), if to == 0 { tag } else { "big/ans-timeout" }, true);
+    }
+}
+
+fn samples_of_width(w: u64) -> usize {
+    ((w * w) as usize).min(16)
+}
+
+/// concurrency limit `limit` (+ `extra` for the head) really reached: a chain of limit+extra+14 blocks (more when gappy; mostly
+/// width 2), pre-filled in one range or in many ranges separated by one-block gaps, a pruner backlog of 511 / 512 / 513 over
+/// the lowest 3..6 heights, new heads arriving one by one while `limit` blocks are in progress (head allowance),
+/// pruner questions about blocks in progress / queued, a disconnect with everything in progress, and enough
+/// answers to drain the chain.
+fn concurrency_episode(rng: &mut Rng, out: &mut Emitter, limit: usize, extra: usize, gappy: bool) {
+    // enough stored, unpaused, in-window blocks in the first wave for `limit` of them to be in progress at once
+    let n = if gappy { (limit + extra) * 3 / 2 + 16 } else { limit + extra + 14 };
+    let ws: Vec<u64> = (0..n).map(|_| if rng.chance(1, 6) { *rng.pick(&[3u64, 4, 5, 8, 16]) } else { 2 }).collect();
+    let old = if rng.chance(1, 3) { 2 } else { 0 };
+    out.op(
+        format!("reset limit={limit} extra={extra} old={old} ws={}", natl(&ws)),
+        &format!("big/limit={limit}-extra={extra}-blocks={n}{}", if gappy { "-gappy" } else { "" }),
+        false,
+    );
+    let t = "big/conc";
+    let first_wave = (n - extra - 2) as u64; // the last extra+2 heights arrive later, one by one
+    if gappy {
+        // ranges of 1..3 heights separated by one missing height: many stored ranges, many queue ranges
+        let mut lo = 1u64;
+        while lo <= first_wave {
+            let hi = (lo + rng.range(0, 2)).min(first_wave);
+            out.op(format!("insert lo={lo} hi={hi}"), "big/insert-range", true);
+            lo = hi + 2;
+        }
+    } else {
+        out.op(format!("insert lo=1 hi={first_wave}"), "big/insert-prefill", true);
+    }
+    let np = *rng.pick(&[511u64, 512, 513]);
+    out.op(format!("np v={np}"), &format!("thr/backlog={np}"), true);
+    out.op(format!("hp v={}", rng.range(3, 6)), t, true);
+    out.op("peers n=2", "big/connect", true);
+    // rough number of answers needed for everything
+    let total: usize = ws.iter().map(|w| samples_of_width(*w)).sum();
+    emit_answers(rng, out, total / 4, 0, "big/ans");
+    // new heads one by one: each may start on top of `limit` blocks in progress, up to limit+extra
+    for h in first_wave + 1..=n as u64 {
+        out.op(format!("insert lo={h} hi={h}"), "big/insert-head", true);
+        if rng.chance(1, 3) {
+            emit_answers(rng, out, 1, 0, "big/ans");
+        }
+    }
+    // the pruner asks about heights all over the chain (in progress: refused; queued: granted and dequeued)
+    for _ in 0..6 {
+        out.op(format!("prune h={}", rng.range(1, n as u64)), "big/prune", true);
+    }
+    out.op(format!("rmgranted i={}", rng.below(8)), "big/rmgranted", true);
+    emit_answers(rng, out, total / 4, 12, "big/ans");
+    // backlog crosses the threshold in both directions
+    for v in [511u64, 512, 513, 512, 511] {
+        out.op(format!("np v={v}"), &format!("thr/backlog={v}"), true);
+        emit_answers(rng, out, 2, 0, "big/ans");
+    }
+    if rng.chance(2, 3) {
+        // everything in progress is dropped and rescheduled
+        out.op("peers n=0", "big/disconnect", true);
+        out.op("peers n=1", "big/connect", true);
+    }
+    if gappy {
+        // fill some of the gaps (joins ranges; the filled heights are queued below blocks in progress)
+        let mut h = 2u64;
+        while h < first_wave {
+            if rng.chance(1, 3) {
+                out.op(format!("insert lo={h} hi={h}"), "big/insert-fill", true);
+            }
+            h += rng.range(1, 4);
+        }
+    }
+    out.op("np v=0", t, true);
+    emit_answers(rng, out, total + total / 4, 15, "big/ans");
+}
+
+/// many blocks QUEUED: a long chain (in many ranges when `gappy`) with a small limit; only part of it is drained
+fn long_queue_episode(rng: &mut Rng, out: &mut Emitter, n: usize, gappy: bool, answers: usize) {
+    let limit = rng.range(1, 3);
+    let ws: Vec<u64> = (0..n).map(|_| if rng.chance(1, 10) { 3 } else { 2 }).collect();
+    let old = if rng.bool() { n as u64 / 4 } else { 0 };
+    out.op(
+        format!("reset limit={limit} extra=1 old={old} ws={}", natl(&ws)),
+        &format!("big/queued-blocks={n}{}", if gappy { "-gappy" } else { "" }),
+        false,
+    );
+    let n64 = n as u64;
+    if gappy {
+        let mut lo = 1u64;
+        while lo <= n64 {
+            let hi = (lo + rng.range(0, 3)).min(n64);
+            out.op(format!("insert lo={lo} hi={hi}"), "big/insert-range", true);
+            lo = hi + 2;
+        }
+    } else {
+        out.op(format!("insert lo=1 hi={}", n64 - 1), "big/insert-prefill", true);
+    }
+    out.op(format!("np v={}", *rng.pick(&[511u64, 512, 513])), "big/queue", true);
+    out.op(format!("hp v={}", n64 / 2), "big/queue", true);
+    out.op("peers n=1", "big/connect", true);
+    for round in 0..6 {
+        emit_answers(rng, out, answers / 6, 10, "big/ans");
+        match round {
+            0 => out.op(format!("prune h={}", rng.range(1, n64)), "big/prune", true),
+            1 => out.op(format!("insert lo={n64} hi={n64}"), "big/insert-head", true),
+            2 => out.op(format!("rmgranted i={}", rng.below(4)), "big/rmgranted", true),
+            3 => out.op("np v=511", "thr/backlog=511", true),
+            4 => out.op(format!("remove h={}", rng.range(1, n64 / 2)), "big/remove-rogue", true),
+            _ => out.op(format!("hp v={}", rng.range(0, n64)), "big/queue", true),
+        }
+    }
+}
+
+/// square widths at powers of two +-1: one block per width, everything answered (some shares time out)
+fn width_episode(rng: &mut Rng, out: &mut Emitter, widths: &[u64], timeout_1_in: u64) {
+    let mut ws = widths.to_vec();
+    rng.shuffle(&mut ws);
+    let limit = rng.range(1, 3);
+    out.op(format!("reset limit={limit} extra=1 old=0 ws={}", natl(&ws)), "thr/widths", false);
+    out.op(format!("insert lo=1 hi={}", ws.len()), "thr/widths-insert", true);
+    out.op("peers n=1", "thr/widths-connect", true);
+    let total: usize = ws.iter().map(|w| samples_of_width(*w)).sum();
+    for _ in 0..total + total / 8 + 4 {
+        let to = if timeout_1_in > 0 && rng.chance(1, timeout_1_in) { 1 } else { 0 };
+        out.op(format!("ans b={} k={} to={to}", rng.below(3), rng.below(16)), if to == 0 { "thr/widths-ans" } else { "thr/widths-timeout" }, true);
+    }
+}
+
+pub fn gen_big(rng: &mut Rng, cfg: &GenCfg, out: &mut Emitter) {
+    // (a) concurrency limits up to 64 (+-1) really reached
+    let limits: &[usize] = match (cfg.thorough, cfg.c34_bias) {
+        (true, _) => &[7, 8, 9, 10, 15, 16, 17, 31, 32, 33, 63, 64, 65, 127, 128, 129],
+        (false, true) => &[7, 8, 9, 16, 17, 32, 33, 63, 64, 65],
+        (false, false) => &[8, 9, 17, 33, 64, 65],
+    };
+    for (i, &l) in limits.iter().enumerate() {
+        let extra = [0usize, 1, 5, 2][i % 4];
+        concurrency_episode(rng, out, l, extra, i % 2 == 1);
+        if cfg.thorough {
+            concurrency_episode(rng, out, l, [5usize, 0, 1, 3][i % 4], i % 2 == 0);
+        }
+    }
+    // (b) many blocks queued / many stored ranges
+    let queues: &[(usize, usize)] = match (cfg.thorough, cfg.c34_bias) {
+        (true, _) => &[(65, 300), (129, 600), (257, 600), (511, 300), (512, 300), (513, 1200), (1025, 600)],
+        (false, true) => &[(65, 120), (129, 240), (513, 240)],
+        (false, false) => &[(129, 120), (513, 120)],
+    };
+    for (i, &(n, answers)) in queues.iter().enumerate() {
+        long_queue_episode(rng, out, n, i % 2 == 0, answers);
+        if cfg.thorough {
+            long_queue_episode(rng, out, n, i % 2 == 1, answers);
+        }
+    }
+    // (c) square widths at powers of two +-1 (C33: with timeouts, so that "marked only after full success" matters)
+    let widths: &[u64] = if cfg.thorough {
+        &[2, 3, 4, 5, 7, 8, 9, 15, 16, 17, 31, 32, 33, 63, 64, 65, 127, 128, 129, 255, 256]
+    } else {
+        &[3, 4, 5, 7, 8, 9, 15, 16, 17, 31, 32, 33, 63, 64, 65, 127, 128, 129]
+    };
+    let passes = if cfg.thorough { 4 } else { 1 };
+    for pass in 0..passes {
+        width_episode(rng, out, widths, if cfg.c34_bias && pass == 0 { 0 } else { 12 });
+    }
 }
